@@ -785,3 +785,104 @@ def err_order(ck, F, rule="ERR-ORDER"):
                       "%s can return the right operand's error without having established that the left operand is Ok: with two failing operands the right error wins" % qn,
                       f2, l2, sample={"fn": qn, "helper": F.qname_of(c)})
     ck.note("binary_handlers", n)
+
+
+# (owner ADT, field) -> tags of tuple components .0 / .1
+DIM_FIELDS = {("ironcalc_base::types::Cell", "r"): ("W", "H"),          # ArrayFormula.r = (width, height)
+              ("ironcalc_base::types::Cell", "a"): ("ROW", "COL")}      # SpillCell.a = (anchor row, anchor column)
+DIM_OK = {"W": {"W", "COL"}, "H": {"H", "ROW"}, "ROW": {"ROW", "H"}, "COL": {"COL", "W"}}
+
+
+def dim_units(ck, F, rule="DIM-UNITS"):
+    """Row/column dimensional consistency of spill extents: a value read from component 0 of Cell::ArrayFormula.r (the
+    width) is only ever added to / compared with column quantities, component 1 (the height) with row quantities; the
+    same for the (row, column) anchor of a SpillCell.  Tags propagate through copies, casts and +/- inside one body."""
+    n = 0
+    for path in sorted(F.body_paths()):
+        h = F.heads[path]
+        if "/functions/" in h["file"] or "/test" in h["file"]:
+            continue
+        raw = F._raw.get(path) if hasattr(F, "_raw") else None
+        if raw is not None and '"r"' not in raw and '"a"' not in raw:
+            continue
+        b = F.body(path)
+        tags = {}
+
+        def place_tag(pl):
+            rp = b.resolve_place(pl, through_named=True)
+            pj = place_proj(rp)
+            for i, e in enumerate(pj):
+                if e[0] == "f" and (e[3], e[2]) in DIM_FIELDS and i + 1 < len(pj) and pj[i + 1][0] == "f" and pj[i + 1][3] == "tuple":
+                    return {DIM_FIELDS[(e[3], e[2])][pj[i + 1][1]]} if pj[i + 1][1] < 2 else set()
+            if pj and pj[-1][0] == "f" and pj[-1][2] in ("row", "column") and str(pj[-1][3]).startswith("ironcalc_base::"):
+                return {"ROW" if pj[-1][2] == "row" else "COL"}
+            if not pj:
+                nm = b.local_name(rp["l"])
+                out = set(tags.get(rp["l"], ()))
+                if nm in ("row", "column") and 1 <= rp["l"] <= b.nargs:
+                    out.add("ROW" if nm == "row" else "COL")
+                return out
+            # tuple component of a local that holds a whole (w, h) pair copied out of the field
+            if len(pj) == 1 and pj[0][0] == "f" and pj[0][3] == "tuple" and rp["l"] in pair_locals and pj[0][1] < 2:
+                return {pair_locals[rp["l"]][pj[0][1]]}
+            return set()
+
+        def op_tag(o):
+            p = op_place(o)
+            return place_tag(p) if p is not None else set()
+        # locals holding a whole pair
+        pair_locals = {}
+        for _ in range(3):
+            for bi, si, s in b.stmts():
+                if place_proj(s["p"]):
+                    continue
+                rv = s["rv"]
+                if rv["k"] == "use":
+                    q = op_place(rv["o"])
+                    if q is None:
+                        continue
+                    rp = b.resolve_place(q, through_named=True)
+                    pj = place_proj(rp)
+                    if pj and pj[-1][0] == "f" and (pj[-1][3], pj[-1][2]) in DIM_FIELDS:
+                        pair_locals[s["p"]["l"]] = DIM_FIELDS[(pj[-1][3], pj[-1][2])]
+                    elif not pj and rp["l"] in pair_locals:
+                        pair_locals[s["p"]["l"]] = pair_locals[rp["l"]]
+        if not pair_locals and '"r"' not in (raw or '"r"'):
+            continue
+        for _ in range(4):
+            for bi, si, s in b.stmts():
+                if place_proj(s["p"]):
+                    continue
+                rv = s["rv"]
+                l = s["p"]["l"]
+                new = set()
+                if rv["k"] in ("use", "cast"):
+                    new = op_tag(rv["o"])
+                elif rv["k"] == "bin" and rv["op"].replace("WithOverflow", "") in ("Add", "Sub"):
+                    ta, tb = op_tag(rv["a"]), op_tag(rv["b"])
+                    # position +/- extent is a position; extent +/- const an extent
+                    new = {x for x in (ta | tb) if x in ("ROW", "COL")} or (ta | tb)
+                if new - tags.get(l, set()):
+                    tags[l] = tags.get(l, set()) | new
+            # checked-arithmetic tuples: `_t = AddWithOverflow(a, b); x = move _t.0`
+            for bi, si, s in b.stmts():
+                rv = s["rv"]
+                if rv["k"] == "use" and not place_proj(s["p"]):
+                    q = op_place(rv["o"])
+                    if q is not None and len(place_proj(q)) == 1 and place_proj(q)[0][0] == "f" and place_proj(q)[0][3] == "tuple" and place_proj(q)[0][1] == 0 and q["l"] in tags:
+                        tags[s["p"]["l"]] = tags.get(s["p"]["l"], set()) | tags[q["l"]]
+        for bi, si, s in b.stmts():
+            rv = s["rv"]
+            if rv["k"] != "bin" or rv["op"].replace("WithOverflow", "") not in ("Add", "Sub", "Lt", "Le", "Gt", "Ge", "Eq", "Ne"):
+                continue
+            ta, tb = op_tag(rv["a"]), op_tag(rv["b"])
+            if not ta or not tb or not ((ta | tb) & {"W", "H"}):
+                continue
+            n += 1
+            bad = [(x, y) for x in ta for y in tb if y not in DIM_OK[x]]
+            f, l = b.loc(bi, si)
+            qn = b.qname.split("::", 1)[-1]
+            k = "%s|%s %s %s" % (qn, "/".join(sorted(ta)), rv["op"].replace("WithOverflow", ""), "/".join(sorted(tb)))
+            ck.ob(rule, k, not bad, "%s combines a %s quantity with a %s quantity (%s): width/height of a spill extent are mixed up with rows/columns"
+                  % (qn, bad[0][0] if bad else "", bad[0][1] if bad else "", rv["op"]), f, l, sample={"fn": qn, "left": sorted(ta), "right": sorted(tb)})
+    ck.note("dimension_checked_operations", n)
